@@ -14,7 +14,7 @@ RULE = ("Schema specs (six type kinds, wrappers, defaults of every input kind, r
         "the extracted structure (kinds, members in merged document order, wrappers, coerced defaults, descriptions, "
         "deprecations, directive definitions, roots) equals the spec's; 21 labelled invalid variants must raise a "
         "py_gql.exc.GraphQLError and nothing else. Non-trivial: the document has an extension block, a recursive "
-        "reference or a default value; distinct = SDL text + options.")
+        "reference or a default value; distinct = SDL text + options. Plus 18 fixed documents whose input types reach themselves through a field with a default value that closes the cycle explicitly (`a: A = {a: null}`, lists, A <-> B): build_schema must return and hold exactly the declared defaults.")
 ASSUMPTIONS = [
     "With ignore_extensions=True the base document alone may be invalid: then any GraphQLError is accepted, otherwise the structure must equal the base-only spec.",
     "Documented leniencies are not treated as invalid: unknown extension targets are ignored by build_schema (strict=False).",
